@@ -232,30 +232,37 @@ func c08Run(r *core.Run) {
 	}
 	r.Bounds["prefix_capable_routes"] = len(pre)
 	np := len(pre) + 1 // index 0 = absent
+	nj := n + 1
 	r.Parallel(func(w, nw int, l *core.Local) {
 		m := ref.NewMatcher()
-		for c := w; c < np*np*n; c += nw {
+		for c := w; c < np*nj*n; c += nw {
 			if c%256 == 0 && r.Expired() {
 				return
 			}
 			k := c % n
-			jj := (c / n) % np
-			ii := c / (n * np)
+			jj := (c / n) % nj
+			ii := c / (n * nj)
 			if ii > 0 && jj == 0 {
 				continue // canonical: absent slots lead
 			}
+			// the first slot holds a route that registers; the second slot holds ANY catalogue entry: when it
+			// is rejected the history goes on (an application may recover from the registration panic), and
+			// the rejected registration must leave nothing behind
 			i, j := -1, -1
 			if ii > 0 {
 				i = pre[ii-1]
 			}
 			if jj > 0 {
-				j = pre[jj-1]
+				j = jj - 1
 			}
 			if !r.Thorough() && ii > 0 && (ii%3 != 0) {
 				continue
 			}
 			if ii > 0 && (i >= baseN || j >= baseN) {
 				continue // two-route prefixes are drawn from the hand-written catalogue only
+			}
+			if jj > 0 && j >= baseN && alone[j] != "accept" {
+				continue
 			}
 			tree, trie := route.NewTree(), ref.NewTrie()
 			var hist []string
@@ -265,9 +272,17 @@ func c08Run(r *core.Run) {
 					continue
 				}
 				v, bad, _ := c08Step(m, tree, trie, cat[x])
-				if v != "accept" || bad != "" {
+				if bad != "" || v == "skip" {
 					ok = false
 					break
+				}
+				if v == "reject" {
+					if cat[x].AST == nil {
+						ok = false // ungrammatical text never reaches the tree: nothing to leave behind
+						break
+					}
+					hist = append(hist, cat[x].Text+" (rejected)")
+					continue
 				}
 				hist = append(hist, cat[x].Text)
 			}
@@ -468,9 +483,10 @@ func c08Replay(raw json.RawMessage) (bool, string) {
 	m := ref.NewMatcher()
 	tree, trie := route.NewTree(), ref.NewTrie()
 	for _, t := range c.Registered {
-		v, bad, _ := c08Step(m, tree, trie, mk(t))
-		if v != "accept" || bad != "" {
-			return false, "history prefix does not register as recorded"
+		rejected := strings.HasSuffix(t, " (rejected)")
+		v, bad, _ := c08Step(m, tree, trie, mk(strings.TrimSuffix(t, " (rejected)")))
+		if bad != "" || (v == "accept") == rejected {
+			return false, "history prefix does not behave as recorded"
 		}
 	}
 	_, bad, _ := c08Step(m, tree, trie, mk(c.Candidate))
